@@ -148,7 +148,7 @@ def is_int_const(node):
 
 
 # methods that change the state of their receiver (see the module docstring)
-STATEFUL_METHODS = {"readline"}
+STATEFUL_METHODS = {"readline", "uniform"}     # uniform: a draw from a RandomState changes its state
 
 
 def first_evaluated(node):
